@@ -11,6 +11,7 @@ import Driver.Util
   (`Tuning`) the real code computed for this case.  Lines:
     host <hex> | ri <cp> <lower> <foldrep> <flags> | cmd <11 fields> | idf <df> <f:>
     nq <hex> | pq <actions> <targets> <keywords> <enhanced> | ib <f:,..|-> | cb <f:,..|-> | tf none|-|<doc>:<f:>,..
+       (pq / ib / cb: values of the real NLP code; answered `ok` iff the model's NLP layer yields the same values)
     fz -|<idx>:<score>,..
     search <q> <limit> <boosts> <pipelineOnly> <pipelineBoost> <useFuzzy> <thr> <useNLP> <cap> <allPlat> <platforms> <noCross>
     tokens <hex> | passes <doc> <allPlat> <platforms> <noCross> <pipelineOnly>
@@ -38,6 +39,10 @@ structure DS where
   fz : List (Nat × Int) := []
   lg : List (Nat × Float) := []    -- math.Log(N/dc) table for the TF-IDF model
   tfIdx : Option (Tfidf.Index Float) := none   -- model TF-IDF index, built once per case
+  nlpDb : Option (List Cmd) := none            -- database the NLP factors are computed for, if not `db` (domain c03)
+
+/-- the commands the per-document NLP factors refer to -/
+def DS.nlpCmds (d : DS) : List Cmd := d.nlpDb.getD d.db.toList
 
 def floatList? (s : String) : Option (List Float) :=
   if s == "-" then some [] else (s.splitOn ",").mapM floatOf?
@@ -55,8 +60,10 @@ def tuning (d : DS) : Tuning Float :=
     host := d.host
     ri := d.ri
     normQ := fun _ => d.nq
-    nlp := fun _ => { actions := d.actions, targets := d.targets, keywords := d.keywords, enhanced := d.enhanced,
-                      intentBoost := fun i => d.ib.getD i 1.0, cascade := fun i => d.cb.getD i 1.0 }
+    -- the NLP layer is the MODEL's (Model/Boosts.lean over Model/Nlp.lean): analysis of the normalised query and both
+    -- per-document factors.  The oracle lines `pq` / `ib` / `cb` (what the real code computed) are no longer inputs;
+    -- they are compared with the model's values when they are read (`oracleCheck`).
+    nlp := fun nq => Boosts.nlpOut d.ri d.nlpCmds nq
     -- the re-ranker is the MODEL's TF-IDF (Model/Tfidf.lean) whenever the real database has a searcher;
     -- the oracle `tf` line only says whether one exists (and is compared separately by the `tfidf` op)
     tfidf := match d.tf, d.tfIdx with
@@ -69,16 +76,22 @@ def tuning (d : DS) : Tuning Float :=
       let sorted := (d.fz.zip (d.fz.drop 1)).all (fun (a, b) => a.2 ≥ b.2)
       if sameSet && sorted then d.fz else [] }
 
-def fmtResults (r : Except Fuzzy.Panic (List (Nat × Float))) : String :=
-  match r with
-  | .error _ => "panic:index-out-of-range"
-  | .ok l => l.foldl (fun acc (d, s) => acc ++ s!" {d} {fmtFloat s}") s!"res {l.length}"
-
 def fmtBytesList (l : List Bytes) : String :=
   if l.isEmpty then "-" else ",".intercalate (l.map (fun b => if b.isEmpty then "_" else Bytes.toHex b))
 
 def fmtFloatList (l : List Float) : String :=
   if l.isEmpty then "-" else ",".intercalate (l.map fmtFloat)
+
+/-- an oracle line agrees with the model iff the values are identical (floats: same bits) -/
+def oracleCheck (what : String) (same : Bool) (model : String) : String :=
+  if same then "ok" else s!"oracle-differs-from-model {what} model={model}"
+
+def sameBits (a b : List Float) : Bool := a.length == b.length && (a.zip b).all (fun (x, y) => x.toBits == y.toBits)
+
+def fmtResults (r : Except Fuzzy.Panic (List (Nat × Float))) : String :=
+  match r with
+  | .error _ => "panic:index-out-of-range"
+  | .ok l => l.foldl (fun acc (d, s) => acc ++ s!" {d} {fmtFloat s}") s!"res {l.length}"
 
 def logOf (d : DS) : Nat → Nat → Float := fun _ dc => ((d.lg.find? (·.1 == dc)).map (·.2)).getD 0.0
 
@@ -116,13 +129,23 @@ def step (d : DS) (l : String) : DS × String :=
     | none => (d, "bad-op")
   | ["pq", a, t, k, e] =>
     match bytesList? a, bytesList? t, bytesList? k, bytesList? e with
-    | some a, some t, some k, some e => ({ d with actions := a, targets := t, keywords := k, enhanced := e }, "ok")
+    | some a, some t, some k, some e =>
+      let n : NlpOut Float := Boosts.nlpOut d.ri d.nlpCmds d.nq
+      ({ d with actions := a, targets := t, keywords := k, enhanced := e },
+       oracleCheck "pq" (n.actions == a && n.targets == t && n.keywords == k && n.enhanced == e)
+         s!"{fmtBytesList n.actions} {fmtBytesList n.targets} {fmtBytesList n.keywords} {fmtBytesList n.enhanced}")
     | _, _, _, _ => (d, "bad-op")
   | ["ib", v] => match floatList? v with
-    | some l => ({ d with ib := l.toArray }, "ok")
+    | some l =>
+      let n : NlpOut Float := Boosts.nlpOut d.ri d.nlpCmds d.nq
+      let m := (List.range d.nlpCmds.length).map n.intentBoost
+      ({ d with ib := l.toArray }, oracleCheck "ib" (sameBits m l) (fmtFloatList m))
     | none => (d, "bad-op")
   | ["cb", v] => match floatList? v with
-    | some l => ({ d with cb := l.toArray }, "ok")
+    | some l =>
+      let n : NlpOut Float := Boosts.nlpOut d.ri d.nlpCmds d.nq
+      let m := (List.range d.nlpCmds.length).map n.cascade
+      ({ d with cb := l.toArray }, oracleCheck "cb" (sameBits m l) (fmtFloatList m))
     | none => (d, "bad-op")
   | ["tf", v] =>
     if v == "none" then ({ d with tf := none }, "ok") else
